@@ -6,11 +6,15 @@ import ast
 import itertools
 
 from ..core import AnalysisError, norm_src
-from ..pyfront import find_def, methods_of, dotted, walk_local
+from ..pyfront import find_def, methods_of, dotted, walk_local, clone
 from ..flowq import iter_polarity
 from ..facts import canon
 from ..sympath import summaries, normal
 from .sem import nt
+
+
+def _parse(text):
+    return ast.parse(text, mode="eval").body
 
 
 def _calls(ps, suffix):
@@ -25,7 +29,8 @@ def _calls(ps, suffix):
 
 
 def _args(call):
-    return [nt(a) for a in call.args]
+    from .sem import nform
+    return [nt(a) for a in nform(call).args]
 
 
 def _tuple_parts(e):
@@ -331,6 +336,8 @@ class _Unknown(Exception):
 
 
 def _bool_eval(e, val):
+    if isinstance(e, ast.Constant) and isinstance(e.value, bool):
+        return e.value
     if isinstance(e, ast.BoolOp):
         vs = [_bool_eval(v, val) for v in e.values]
         return all(vs) if isinstance(e.op, ast.And) else any(vs)
@@ -345,6 +352,8 @@ def _bool_eval(e, val):
 
 
 def _atoms(e, out):
+    if isinstance(e, ast.Constant) and isinstance(e.value, bool):
+        return
     if isinstance(e, ast.BoolOp):
         for v in e.values:
             _atoms(v, out)
@@ -417,35 +426,61 @@ def listing_filters(rep, rule, ms):
                 continue
             a = _args(un[0].r)
             given = {'R': a[0], 'P': a[1], 'F': a[2]}
-            fnone = ps.facts.get('factory is None')
-            dims = [k for k in posmap if not (k == 'F' and fnone is True)]
-            kinds.add(tuple(dims))
-            if fnone is None:
-                probs.append('filter chosen without testing whether a factory was given')
-            want_atoms = {k: tuple(sorted((tgt[posmap[k]], given[k]))) for k in dims}
-            cond = ast.BoolOp(op=ast.And(), values=list(g.ifs)) if len(g.ifs) > 1 \
+            cond0 = ast.BoolOp(op=ast.And(), values=list(g.ifs)) if len(g.ifs) > 1 \
                 else (g.ifs[0] if g.ifs else None)
-            if cond is None:
+            if cond0 is None:
                 probs.append('no filter')
                 continue
-            try:
-                found = set()
-                _atoms(cond, found)
-                if found != set(want_atoms.values()):
-                    probs.append('filter constrains %s, the registry call is given %s'
-                                 % (sorted(found), sorted(want_atoms.values())))
-                    continue
-                atoms = sorted(found)
-                for vals in itertools.product((False, True), repeat=len(atoms)):
-                    env = dict(zip(atoms, vals))
-                    keep = _bool_eval(cond, lambda k: env[k])
-                    if keep != (not all(vals)):
-                        probs.append('an entry with %s is %s' % (
-                            {k[0]: v for k, v in env.items()},
-                            'kept' if keep else 'removed'))
-                        break
-            except _Unknown as u:
-                probs.append('filter term outside equality tests: `%s`' % str(u)[:60])
+            # `factory is None` may be decided by the path or be a term of the
+            # filter itself (the same for every entry): both values are tabulated
+            def has_fnone(e):
+                return any(isinstance(n, (ast.Compare, ast.Name, ast.UnaryOp)) and
+                           canon(n, True)[0] == 'factory is None' for n in ast.walk(e))
+
+            class _Fix(ast.NodeTransformer):
+                def __init__(self, val):
+                    self.val = val
+
+                def generic_visit(self, node):
+                    if isinstance(node, (ast.Compare, ast.UnaryOp)):
+                        c, pol = canon(node, True)
+                        if c == 'factory is None':
+                            return ast.Constant(value=self.val if pol else not self.val)
+                    return super().generic_visit(node)
+            path_fnone = ps.facts.get('factory is None')
+            if path_fnone is None and not has_fnone(cond0):
+                probs.append('filter chosen without testing whether a factory was given')
+            variants = [path_fnone] if path_fnone is not None else (
+                [True, False] if has_fnone(cond0) else [None])
+            for fnone in variants:
+                cond = _Fix(fnone).visit(clone(cond0)) if has_fnone(cond0) else cond0
+                dims = [k for k in posmap if not (k == 'F' and fnone is True)]
+                kinds.add(tuple(dims))
+                want_atoms = {k: tuple(sorted((tgt[posmap[k]], given[k]))) for k in dims}
+                try:
+                    found = set()
+                    _atoms(cond, found)
+                    # an atom under a constant-false/true guard may be irrelevant
+                    atoms = sorted(found | set(want_atoms.values()))
+                    bad_row = None
+                    for vals in itertools.product((False, True), repeat=len(atoms)):
+                        env = dict(zip(atoms, vals))
+                        keep = _bool_eval(cond, lambda k: env[k])
+                        want_keep = not all(env[a_] for a_ in want_atoms.values())
+                        if keep != want_keep:
+                            bad_row = (env, keep)
+                            break
+                    if bad_row is not None:
+                        env, keep = bad_row
+                        probs.append('%san entry with %s is %s (the registry call is '
+                                     'given %s)' % (
+                                         '' if fnone is None else
+                                         'factory %sgiven: ' % ('not ' if fnone else ''),
+                                         {k[0]: v for k, v in env.items()},
+                                         'kept' if keep else 'removed',
+                                         sorted(want_atoms.values())))
+                except _Unknown as u:
+                    probs.append('filter term outside equality tests: `%s`' % str(u)[:60])
         if len(kinds) != 2:
             probs.append('filter variants seen: %s (required: with and without factory)'
                          % sorted(kinds))
@@ -609,8 +644,24 @@ def utility_counting(rep, rule, mod):
     ops = {}
     for name, m in methods_of(uc).items():
         if name in ('__getitem__', '__setitem__', '__delitem__'):
-            cmps = [n for n in ast.walk(m) if isinstance(n, ast.Compare)]
-            ops[name] = sorted({type(o).__name__ for c in cmps for o in c.ops})
+            key = [a.arg for a in m.args.args][1]
+            # every fact of every path that compares the looked-up component
+            found = set()
+            for ps in summaries(m, normal_only=False):
+                for c, t, p in ps.order:
+                    try:
+                        e = _parse(c)
+                    except SyntaxError:
+                        continue
+                    for n in ast.walk(e):
+                        if isinstance(n, ast.Compare) and any(
+                                isinstance(x, ast.Name) and x.id == key
+                                for side in [n.left] + n.comparators
+                                for x in ast.walk(side)):
+                            found |= {type(o).__name__ for o in n.ops}
+                        elif isinstance(n, ast.Name) and n.id == key and e is n:
+                            found.add('Truth')
+            ops[name] = sorted(found)
     ok = len(ops) == 3 and all(v == ['Eq'] for v in ops.values())
     rep.check(rule, '_UnhashableComponentCounter', ok,
               'all three accessors find the component by equality (a mix makes '
